@@ -34,3 +34,24 @@ Definition CFLaplacian_get_matrix_entry (self_graph_vertices : list nat) (self_l
   else
   let matrix := self_laplacian in
   PyOk ((d_get w 0 (d_get v [] matrix))).
+
+(* chipfiring/CFLaplacian.py :: CFLaplacian.get_reduced_matrix   reads ['self_laplacian', 'self_graph_vertices'], writes [], may raise *)
+Definition CFLaplacian_get_reduced_matrix (self_laplacian : dictD) (self_graph_vertices : list nat) (set_order : list nat -> list nat) (q : nat) : pyres (unit) dictD :=
+  let laplacian := self_laplacian in
+  let vertices := self_graph_vertices in
+  let reduced_matrix := (@nil (nat * dictZ)) in
+  match fold_left (fun acc_ v => match acc_ with PyExn e_ => PyExn e_ | PyOk reduced_matrix => 
+  if (negb (Nat.eqb v q)) then
+  let reduced_matrix := d_set v [] reduced_matrix in
+  match fold_left (fun acc_ w => match acc_ with PyExn e_ => PyExn e_ | PyOk reduced_matrix => 
+  if (negb (Nat.eqb w q)) then
+  match d_find v laplacian with None => PyExn tt | Some t1_ =>
+  match d_find v reduced_matrix with None => PyExn tt | Some t2_ =>
+  let reduced_matrix := d_set v (d_set w (d_get w 0 t1_) t2_) reduced_matrix in
+  PyOk reduced_matrix end end
+  else
+  PyOk reduced_matrix end) (set_order vertices) (PyOk reduced_matrix) with PyExn e_ => PyExn e_ | PyOk reduced_matrix =>
+  PyOk reduced_matrix end
+  else
+  PyOk reduced_matrix end) (set_order vertices) (PyOk reduced_matrix) with PyExn e_ => PyExn e_ | PyOk reduced_matrix =>
+  PyOk (reduced_matrix) end.
